@@ -15,13 +15,16 @@ import (
 type P struct{}
 
 func (P) Rule() string {
-	return "stream: real SecretConnection pair over an in-memory duplex whose Read returns 1..k bytes (k in 1,2,3,7,64,1000,unbounded); writes of 1 B..3 frames incl. " +
+	return "transport: in-memory duplex whose Read returns 1..k bytes (k in 1,2,3,7,64,1000,unbounded), half of the cases with Writes coalesced into one byte stream " +
+		"(a Read may span the tail of one message and the head of the next, also across the plaintext key / auth frame boundary of the handshake). " +
+		"stream: real SecretConnection pair over that duplex; writes of 1 B..3 frames incl. " +
 		"32767/32768/32769/65535/65536/65537 B, read buffers 0..70000 B, both directions, drained to EOF; inj: hand-made frames (bad version/type, " +
 		"over-length, truncated, corrupt snappy, chunk > dataMaxSize, sealed type) into the receive side. mux: real MConnection pair (half of them over a " +
 		"SecretConnection pair), 1-4 channels, priorities 1..10, packet payload 1..1024 B, one concurrent sender per channel, messages 1 B..multi-packet incl. " +
 		"exact packet multiples, empty and unknown-channel sends, one over-capacity message; mraw: the harness as malicious peer feeds PacketMsg sequences " +
 		"(EOF 0/1/2, empty fragments, unknown channel, over capacity, oversize packet) to a real MConnection. hs: MakeSecretConnection under a man in the " +
-		"middle (bit flips in every region of all four handshake messages, key/signature substitution, replay, reflection, swap, drop). " +
+		"middle (bit flips in every region of all four handshake messages, key/signature substitution, replay, reflection, swap, drop, " +
+		"both messages of one direction coalesced into one segment). " +
 		"non-trivial = a stream case that crosses a frame boundary or reads with a buffer smaller than a frame; a mux case with >= 2 channels or a " +
 		"multi-packet message; any tampered handshake; distinct = distinct op sequence"
 }
@@ -370,8 +373,10 @@ func sizeClass(n int) string {
 
 func genStream(g *hx.Gen, big bool) {
 	k := pickInt(g, ks)
-	ops := []string{hx.CaseOp("stream"), fmt.Sprintf("sc k=%d seed=%d", k, g.Rng.Intn(1000))}
+	j := g.Rng.Intn(2)
+	ops := []string{hx.CaseOp("stream"), fmt.Sprintf("sc k=%d seed=%d j=%d", k, g.Rng.Intn(1000), j)}
 	g.Count(fmt.Sprintf("stream:k=%d", k))
+	g.Count(fmt.Sprintf("stream:coalescing-transport=%d", j))
 	total := map[string]int{"a": 0, "b": 0}  // bytes written BY side
 	frames := map[string]int{"a": 0, "b": 0} // frames written BY side
 	nreads := map[string]int{"a": 0, "b": 0} // reads issued ON side
@@ -438,7 +443,7 @@ func injLine(side string, hdr byte, l int, pay []byte, claim string) string {
 
 func genInject(g *hx.Gen) {
 	k := pickInt(g, ks)
-	ops := []string{hx.CaseOp("stream", "inject"), fmt.Sprintf("sc k=%d seed=%d", k, g.Rng.Intn(1000))}
+	ops := []string{hx.CaseOp("stream", "inject"), fmt.Sprintf("sc k=%d seed=%d j=%d", k, g.Rng.Intn(1000), g.Rng.Intn(2))}
 	// some honest traffic first
 	for i := 0; i < g.Rng.Intn(3); i++ {
 		ops = append(ops, fmt.Sprintf("w side=a d=%s:%d:%d", kindOf(g), g.Rng.Intn(1000), pickInt(g, smallSizes)))
@@ -567,7 +572,7 @@ func genMux(g *hx.Gen) {
 	g.Count(fmt.Sprintf("mux:channels=%d", nch))
 	g.Count(fmt.Sprintf("mux:maxpay=%d", maxpay))
 	g.Count(fmt.Sprintf("mux:over-secretconn=%d", sc))
-	op := fmt.Sprintf("mux chans=%s maxpay=%d sc=%d k=%d seed=%d rate=%d plan=%s", chansLine(cs), maxpay, sc, pickInt(g, ks), g.Rng.Intn(1000), rate, strings.Join(plan, ","))
+	op := fmt.Sprintf("mux chans=%s maxpay=%d sc=%d k=%d seed=%d j=%d rate=%d plan=%s", chansLine(cs), maxpay, sc, pickInt(g, ks), g.Rng.Intn(1000), g.Rng.Intn(2), rate, strings.Join(plan, ","))
 	g.Case(fmt.Sprintf("mux ch=%d maxpay=%d msgs=%d", nch, maxpay, nmsg), []string{hx.CaseOp("mux"), op}, nch >= 2 || multi)
 }
 
@@ -591,7 +596,7 @@ func genMuxOver(g *hx.Gen) {
 		plan = append(plan, fmt.Sprintf("%d:r:%d:%d", cs[0].id, g.Rng.Intn(999), 1+g.Rng.Intn(capv)))
 	}
 	g.Count("mux:over-capacity")
-	op := fmt.Sprintf("mux chans=%s maxpay=%d sc=%d k=%d seed=%d rate=0 plan=%s", chansLine(cs), maxpay, g.Rng.Intn(2), pickInt(g, ks), g.Rng.Intn(1000), strings.Join(plan, ","))
+	op := fmt.Sprintf("mux chans=%s maxpay=%d sc=%d k=%d seed=%d j=%d rate=0 plan=%s", chansLine(cs), maxpay, g.Rng.Intn(2), pickInt(g, ks), g.Rng.Intn(1000), g.Rng.Intn(2), strings.Join(plan, ","))
 	g.Case("mux over capacity", []string{hx.CaseOp("mux", "overcap"), op}, true)
 }
 
@@ -647,7 +652,7 @@ func genMraw(g *hx.Gen) {
 		}
 		pk = append(pk, fmt.Sprintf("%d:%d:%d:r:%d:%d", ch, eof, over, sd, l))
 	}
-	op := fmt.Sprintf("mraw chans=%s maxpay=%d k=%d seed=%d pk=%s", chansLine(cs), maxpay, pickInt(g, ks), g.Rng.Intn(1000), strings.Join(pk, ","))
+	op := fmt.Sprintf("mraw chans=%s maxpay=%d k=%d seed=%d j=%d pk=%s", chansLine(cs), maxpay, pickInt(g, ks), g.Rng.Intn(1000), g.Rng.Intn(2), strings.Join(pk, ","))
 	g.Case(fmt.Sprintf("mraw ch=%d maxpay=%d pk=%d", nch, maxpay, n), []string{hx.CaseOp("mraw"), op}, true)
 }
 
@@ -655,8 +660,14 @@ var authLen = len(encAuth(authMsg{dummyKey().PubKey(), dummySig()}))
 
 func genHS(g *hx.Gen, scen string) {
 	k := pickInt(g, ks)
-	op := fmt.Sprintf("hs scen=%s k=%d seed=%d", scen, k, g.Rng.Intn(1000))
+	j := g.Rng.Intn(2)
+	op := fmt.Sprintf("hs scen=%s k=%d seed=%d j=%d", scen, k, g.Rng.Intn(1000), j)
+	g.Count(fmt.Sprintf("hs:coalescing-transport=%d", j))
 	switch scen {
+	case "coalesce":
+		// both messages of one direction in ONE segment; the receiver's reads cut it at 1..k bytes (k = 0: all at once)
+		op += " dir=" + []string{"AB", "BA"}[g.Rng.Intn(2)]
+		g.Count(fmt.Sprintf("hs:coalesce:k=%d", k))
 	case "flip":
 		msg := []string{"ephAB", "ephBA", "authAB", "authBA"}[g.Rng.Intn(4)]
 		idx, n := 0, ephLen
@@ -689,6 +700,14 @@ func (P) Generate(g *hx.Gen) {
 	g.Case("corpus frame boundary", []string{hx.CaseOp("stream"), "sc k=3 seed=1", "w side=a d=r:1:32769", "r side=b n=32768", "r side=b n=5", "r side=b n=5"}, true)
 	g.Case("corpus reflection", []string{hx.CaseOp("hs"), "hs scen=reflect k=0 seed=1"}, true)
 	g.Case("corpus coalesced segments", []string{hx.CaseOp("hs"), "hs scen=coalesce k=0 seed=1"}, true)
+	g.Case("corpus swapped auth frames", []string{hx.CaseOp("hs"), "hs scen=swap k=0 seed=1"}, true)
+	for _, d := range []string{"AB", "BA"} {
+		for _, k := range []int{0, 40, 7, 1} {
+			for j := 0; j < 2; j++ {
+				g.Case("corpus coalesce "+d, []string{hx.CaseOp("hs"), fmt.Sprintf("hs scen=coalesce k=%d seed=%d j=%d dir=%s", k, 3+k, j, d)}, true)
+			}
+		}
+	}
 	for _, n := range []int{0, 1, 5, 6, 60, 32768, 65536, 1 << 20} {
 		g.Case("corpus maxenc", []string{"case", fmt.Sprintf("maxenc n=%d", n)}, false)
 	}
@@ -707,7 +726,7 @@ func (P) Generate(g *hx.Gen) {
 	for i := 0; i < g.Pick(120, 2000); i++ {
 		genMraw(g)
 	}
-	scens := []string{"none", "coalesce", "flip", "flip", "flip", "flip", "flip", "ephsub", "keysub", "sigonly", "sigsub", "wrongchal", "nilkey", "nilsig", "wrongtype",
+	scens := []string{"none", "none", "coalesce", "coalesce", "coalesce", "flip", "flip", "flip", "flip", "flip", "ephsub", "keysub", "sigonly", "sigsub", "wrongchal", "nilkey", "nilsig", "wrongtype",
 		"swap", "drop", "mitmfull", "reflect", "replay", "replayeph"}
 	for i := 0; i < g.Pick(120, 3000); i++ {
 		genHS(g, scens[g.Rng.Intn(len(scens))])
